@@ -61,6 +61,28 @@ def generated_schema_text():
             <name>ZQ-UPPER</name>
             <description>Generated upper.</description>
          </node>
+         <node>
+            <name>Zq-quantity</name>
+            <description>Generated node that takes a value and also has named children.</description>
+            <node>
+               <name>#</name>
+               <attribute><name>takesValue</name></attribute>
+               <attribute><name>valueClass</name><value>textClass</value></attribute>
+            </node>
+            <node>
+               <name>Zq-big-quantity</name>
+               <description>Generated child beside a placeholder.</description>
+               <node>
+                  <name>Zq-measured</name>
+                  <description>Generated grandchild taking a value.</description>
+                  <node>
+                     <name>#</name>
+                     <attribute><name>takesValue</name></attribute>
+                     <attribute><name>valueClass</name><value>textClass</value></attribute>
+                  </node>
+               </node>
+            </node>
+         </node>
       </node>
 """
     marker = "   </schema>"
@@ -197,6 +219,7 @@ def bulk_check(ctx, cfgs):
     """The bulk interface (df_util.convert_to_form) must equal the per-tag answers."""
     import pandas as pd
     from hed.models import df_util
+    from hed.models.hed_tag import HedTag as HedTagCls
     rec = ctx.rec
     for label, schema, model, ns in cfgs:
         if label.endswith("@tl:") and not ctx.thorough:
@@ -221,6 +244,33 @@ def bulk_check(ctx, cfgs):
                 if bad:
                     rec.violation("C03:bulk-differs:" + form, config=label, src=src_name, first=bad[0], count=len(bad))
                 rec.outcome("bulk-" + ("ok" if not bad else "diff"))
+        # cells of one call that differ only in the letter case of a value / extension / unknown tag keep their own case
+        pairs = []
+        for t in tags:
+            if t.value_child is not None:
+                pairs += [ns + t.name + "/AbC d_3", ns + t.name + "/abc D_3", ns + t.long + "/ABC d_3"]
+            elif t.has("extensionAllowed") and len(pairs) < 400:
+                pairs += [ns + t.name + "/Zzq-Ext", ns + t.name + "/zzq-ext"]
+            if len(pairs) >= 600:
+                break
+        pairs += ["Zzqunknown", "zzqUNKNOWN"]
+        for form in ("long_tag", "short_tag"):
+            s2 = pd.Series(list(pairs), dtype=str)
+            df2 = pd.DataFrame({"a": list(pairs), "b": list(reversed(pairs))}, dtype=str)
+            try:
+                df_util.convert_to_form(s2, schema, form)
+                df_util.convert_to_form(df2, schema, form, ["a", "b"])
+            except Exception as e:
+                rec.violation("C03:bulk-raises:" + type(e).__name__, config=label, form=form, error=repr(e)[:200])
+                continue
+            want = [str(getattr(HedTagCls(x, schema), form)) for x in pairs]
+            rec.n("evaluations", 3 * len(pairs))
+            rec.n("transitions", 3 * len(pairs))
+            for name, got in (("series", list(s2)), ("frame-a", list(df2["a"])), ("frame-b", list(reversed(list(df2["b"]))))):
+                bad = [(a, b, c) for a, b, c in zip(pairs, got, want) if b != c]
+                if bad:
+                    rec.violation("C03:bulk-case-sibling-cells-differ:" + form, config=label, where=name, first=bad[0],
+                                  count=len(bad))
         # group of tags in one cell
         cell = ",".join(mixed[:7]) + ",(" + ",".join(mixed[7:12]) + ")"
         df = pd.DataFrame({"HED": [cell, cell], "other": ["x", "y"]})
